@@ -112,15 +112,15 @@ static void do_vf(char *args){
 
 int main(int argc,char **argv){
   FILE *f=fopen(argv[1],"r"); char *line; if(!f)return 2;
-  signal(SIGALRM,on_alarm); vc_rng_s=12345;
+  vc_watch_init(on_alarm); vc_rng_s=12345;
   __lsan_do_recoverable_leak_check();
   while((line=vc_getline(f))){
-    alarm(60);
+    vc_watch(60);
     if(!strncmp(line,"case ",5))printf("%s\n",line);
     else if(!strncmp(line,"enc ",4))do_enc(line+4);
     else if(!strncmp(line,"dec ",4))do_dec(line+4);
     else if(!strncmp(line,"vf ",3))do_vf(line+3);
-    alarm(0); free(line);
+    vc_watch(0); free(line);
   }
   return 0;
 }
